@@ -1,3 +1,37 @@
-From Ebml Require Import Base Tools Spec Reader.
-Example C17_ex : ebml_size 127 1 = SUnknown /\ ebml_size 127 2 = SKnown 127.
+(* C17 — memory use is bounded by the configured tag size limit, whatever input claims.  Statements only. *)
+From Ebml Require Import Base Tools Spec Reader Pure Proofs.Tactics Proofs.ReaderIO Proofs.Refine Proofs.CapBound.
+
+(* With a size limit of m bytes the internal buffer never grows beyond max(initial capacity, 16, m): for every input, every
+   tolerance setting / buffered set / EOF-closing setting, every source script (short reads, Ok(0) pauses and I/O errors
+   included) and every sequence of next()/try_recover() calls *)
+Theorem C17_buffer_bounded : forall c m cap0 script input ops, c_max c = Some m ->
+  fst (run_reader_cap c cap0 script input ops) <= N.max (N.max cap0 16) m.
+Proof. exact cap_bounded. Qed.
+
+(* a header whose declared (known) size exceeds the limit is never accepted ... *)
+Theorem C17_oversize_rejected : forall c st id ty n hl m,
+  snd (peek_header c st) = Ok (id, ty, SKnown n, hl) -> c_max c = Some m -> n <= m.
+Proof. exact peek_header_size_ok. Qed.
+
+(* ... and validating a header never requests more than a 16-byte buffer: the rejection happens before any allocation or
+   read for the payload (read_tag returns a header error without touching the buffer again) *)
+Theorem C17_header_allocates_16 : forall c st, r_cap (fst (peek_header c st)) <= N.max (r_cap st) 16.
+Proof. exact header_allocates_16. Qed.
+Theorem C17_error_before_payload : forall c st0,
+  read_tag c st0 = match peek_header c st0 with
+                   | (st, Err e) => (st, Err e)
+                   | (st, Panic) => (st, Panic)
+                   | (st, Ok h) => tag_tail c st (r_off st0) h
+                   end.
+Proof. exact read_tag_unfold. Qed.
+
+(* non-vacuity: 2^56-2 bytes declared with a 5-byte limit: size error, buffer stays at 16; a 5-byte declaration passes *)
+Example C17_ex :
+  let sp := [ {| e_id := 129; e_ty := DMaster; e_path := [] |}; {| e_id := 16642; e_ty := DBinary; e_path := [PId 129] |} ] in
+  let c := {| c_sp := sp; c_allow_id := false; c_allow_hier := false; c_allow_over := false; c_max := Some 5;
+              c_buffered := []; c_emit_eof := true |} in
+  run_reader_cap c 0 [] [129; 255; 65; 2; 1; 255; 255; 255; 255; 255; 255; 254] [RAll] =
+    (16, [OItem (TStart 129) 0; OErr (RInvalidSize 2 16642 72057594037927934)]) /\
+  run_reader_cap c 0 [] [129; 255; 65; 2; 133; 1; 2; 3] [RAll] =
+    (16, [OItem (TStart 129) 0; OErr (REof 2 (Some 16642) (Some 5) (Some [1; 2; 3]))]).
 Proof. vm_compute. split; reflexivity. Qed.
